@@ -13,18 +13,18 @@ ALLOWED = {
     ("Persist", "handle"): {"TempIn(Join(Entry,'tmp'))": "cache"},
     ("Persist", "dst"): {"Content(Entry)": "cache"},
     ("WriteData", "handle"): {"TempIn(Join(Entry,'tmp'))": "cache", "Mmap(TempIn(Join(Entry,'tmp')))": "cache",
-                              "Handle(Bucket(Entry))": "cache", "Handle(Entry)": "dest"},
+                              "Handle(Bucket(Entry))": "cache", "Handle(Entry)": "dest", "Handle(Content(Entry))": "cache"},
     ("Fallocate", "handle"): {"TempIn(Join(Entry,'tmp'))": "cache"},
     ("HandleMut", "handle"): {"TempIn(Join(Entry,'tmp'))": "cache"},     # set_len on the private temp file
-    ("Open", "path"): {"Bucket(Entry)": "cache", "Entry": "dest"},
+    ("Open", "path"): {"Bucket(Entry)": "cache", "Entry": "dest", "Content(Entry)": "cache"},
     ("RemoveFile", "path"): {"Content(Entry)": "cache", "Bucket(Entry)": "cache", "Entry": "dest"},
     ("RemoveDirAll", "path"): {"Child(Entry)": "cache"},
     ("Copy", "src"): {"Content(Entry)": "cache"},
-    ("Copy", "dst"): {"Entry": "other"},
+    ("Copy", "dst"): {"Entry": "other", "Content(Entry)": "cache"},      # (into a content address: confined; whether allowed at all is C03's business)
     ("Reflink", "src"): {"Content(Entry)": "cache"},
-    ("Reflink", "dst"): {"Entry": "other"},
+    ("Reflink", "dst"): {"Entry": "other", "Content(Entry)": "cache"},
     ("HardLink", "src"): {"Content(Entry)": "cache"},
-    ("HardLink", "dst"): {"Entry": "other"},
+    ("HardLink", "dst"): {"Entry": "other", "Content(Entry)": "cache"},
     ("Symlink", "src"): {"Abs(Entry)": "other"},      # the link target, made absolute (a relative one would dangle)
     ("Symlink", "dst"): {"Content(Entry)": "cache"},
 }
